@@ -39,6 +39,7 @@ func main() {
 	selftest := flag.Bool("selftest", false, "run the seeded-mutation self-test of the checker for -prop")
 	dump := flag.Bool("dump", false, "print every obligation")
 	guardsOfFn := flag.String("guards", "", "debug: print call sites and dominating guards of the function key")
+	listViol := flag.Bool("listviol", false, "print every violated obligation as 'V <prop> <rule>|<key>' (no known-finding classification, no evidence written)")
 	flag.Parse()
 	if *tier == "" {
 		*tier = os.Getenv("VERIF_TIER")
@@ -125,6 +126,17 @@ func main() {
 			}()
 			pd.Run(&c)
 		}()
+		if *listViol {
+			for _, o := range c.Obligs {
+				if o.Status == "violated" {
+					fmt.Printf("V %s %s|%s\n", id, o.Rule, o.Key)
+				}
+			}
+			for _, u := range c.Undecided {
+				fmt.Printf("U %s %s\n", id, u)
+			}
+			continue
+		}
 		if *dump {
 			for _, o := range c.Obligs {
 				fmt.Printf("  [%s] %s %s @%s: %s\n", o.Status, o.Rule, o.Key, o.Pos, o.Msg)
